@@ -1025,4 +1025,26 @@ def rule_alpha(ctx):
             "exists %s.. (val & p(..)) is capture-free on %d two-argument atoms over the names %s: %s" % (zp, n2, pool2, "ok" if not bad2 else bad2[0]), construct=bad2 or None)
 
 
-RULES = [rule_val, rule_tau_b, rule_tau_star, rule_choosers, rule_zclass, rule_collect, rule_alpha]
+def _shared(ctx, rule, keep=lambda key: True):
+    """run a rule of another property and take its obligations: the clause it decides is a necessary condition of this property as well"""
+    sub = type(ctx)(ctx.prop, ctx.tier, ctx.facts)
+    rule(sub)
+    ctx.obls.extend(o for o in sub.obls if keep(o["key"]))
+
+
+def rule_parser_precedence(ctx):
+    """The program whose models are meant is the one the parser reads: `-X/2` is `(-X)/2`, `1..2*3` is `1..(2*3)`.  The operator levels of the
+    term parser are the language's (interval < + - < * / \\ < unary minus, all left-associative), and the printer agrees with them (C14)."""
+    from .. import gcov
+    from . import c14
+    fx = ctx.facts
+    pt = gcov.pratt_tables(fx, "asp").get("PRATT_PARSER")
+    want = [[("infix", "interval", "Left")], [("infix", "add", "Left"), ("infix", "subtract", "Left")],
+            [("infix", "multiply", "Left"), ("infix", "divide", "Left"), ("infix", "modulo", "Left")], [("prefix", "negative", None)]]
+    got = [sorted(l_, key=repr) for l_ in pt["levels"]] if pt else None
+    ctx.add("PARSE", "term-operator-levels", got == [sorted(l_, key=repr) for l_ in want], "src/parsing/asp/mini_gringo/pest.rs",
+            "term operators by binding strength: .. | + - | * / \\ | unary -  (all binary ones left-associative)", construct=got)
+    _shared(ctx, c14.rule_precedence, lambda k: k.startswith("PRN-P:"))
+
+
+RULES = [rule_val, rule_tau_b, rule_tau_star, rule_choosers, rule_zclass, rule_collect, rule_alpha, rule_parser_precedence]
